@@ -378,6 +378,10 @@ func report(prop, tier string, seed int, ps PropSpec, results []*harnessResult, 
 				continue
 			}
 			out, err := rp.replay(r.Spec, f.Model, f.Kind)
+			// a race only shows under some schedules: give the concurrent replay a few attempts
+			for attempt := 1; err == nil && !out.reproduces(f) && strings.HasPrefix(f.AssertID, "C18.") && attempt < 5; attempt++ {
+				out, err = rp.replay(r.Spec, f.Model, f.Kind)
+			}
 			if err != nil {
 				inconclusive = append(inconclusive, fmt.Sprintf("%s: replay of %s failed to run: %v", r.Spec.Fn, f.AssertID, err))
 				continue
